@@ -11,6 +11,8 @@ CONN_NOTE = ('Trusted base: TLC; the RpcConn/RpcConnTrace specifications; the ha
 TRANS_NOTE = ('Trusted base: TLC; Transport.tla / TransportTrace.tla; in-process servers reached through Transport.Dial over the harness wire; '
               'hooks stamped under connsMu; real time in units of 6 ms with half a unit of slack; synchronous Call only (R3); R4 for callers not yet registered. '
               'Bounds: <= 2 addresses, <= 3 callers, MaxConnsPerHost <= 3, clock <= 8 units.')
+CLI_NOTE = ('Trusted base: TLC; Client.tla / ClientTrace.tla; the scripted RoundTripper standing for Transport; hooks under Client.lock; the detector paced by the real '
+            '100 ms ticker and released by a gate; estimate arithmetic re-computed in the harness. Bounds: <= 4 targets, <= 3 callers, <= 3 updates.')
 CLAIMED = {
  'C01': dict(level=MC, ref='6 C01', technique='TLC model checking of RpcConn + trace validation of TLC-driven executions of the real Conn/Server',
    text='Exhaustive TLC check (all interleavings of <=3-4 outstanding calls, all server completion orders, duplicate/unknown-sequence frames, every I/O mode) that a reply is F(own arguments) and sequence numbers are unique/echoed; TLC behaviours (random + deviation counterexamples EchoWrongSeq, SeqReuse) are replayed through the real code with payload sizes 0..70000 and every recorded trace is validated against the specification with the reply digest recomputed by the caller.',
@@ -39,6 +41,15 @@ CLAIMED = {
  'C15': dict(level=MC, ref='6 C15', technique='TLC model checking of Transport.tla + trace validation of pool decisions of the real rpc.Transport',
    text='TLC checks SpareBusy (no housekeeping close while calls are registered) and CloseClosesAll; the counterexamples of IdleCloseIgnoresBusy / RetireBusy / CloseIdleBusy hold a caller between getConn and registration (t.got.gate) while passes run, on the real Transport; the trace specification tracks registered calls per connection and flags any housekeeping close of a busy connection, and the socket count after Close must be zero.',
    note=TRANS_NOTE),
+ 'C16': dict(level=MC, ref='6 C16', technique='TLC model checking of Client.tla + trace validation of routing decisions of the real rpc.Client',
+   text='Exhaustive TLC check of RouteInTargets / ListFromTargets / CursorInRange over all interleavings of Update, detector passes, probe completions of current and replaced target objects, Director answers and concurrent calls; TLC behaviours and the counterexamples of StaleProbeReinserts / ListFromStaleMap are replayed on the real Client over a scripted RoundTripper (Update called with duplicates and empty strings in varying positions); every routing decision is checked against the model\'s target set and live list, and the RoundTripper records the address each call reached.',
+   note=CLI_NOTE),
+ 'C17': dict(level=MC, ref='6 C17', technique='TLC model checking of Client.tla + trace validation of scheduling decisions of the real rpc.Client',
+   text='TLC checks RRDistinct, RandomInList, LeastTimeMinimal and ProbeOncePerTick for 2-3 targets; on the real Client (2-4 targets, every policy) each logged pick is checked against the model: cursor position, membership in the live list, minimal estimate for non-probe picks (estimates tracked from the logged updates), at least Tick between probes, and the documented moving average re-computed from the logged inputs.',
+   note=CLI_NOTE),
+ 'C18': dict(level=MC, ref='6 C18', technique='TLC model checking (safety + liveness) of Client.tla + trace validation of waiter events of the real rpc.Client',
+   text='TLC checks NoWaitAfterClose / WaiterOwed / ClosedFailsAtOnce / DetectReleases / ProbeReleases and, under weak fairness of library steps, WaitersReleased and CloseReleases, over all races of waiter registration with probe completion, detector passes, Close, Fallback begin/end and timeouts; the counterexamples of LostWakeup / DetectNoWake / NoWakeOnClose / WaitAfterClose / TimeoutLeaks and random behaviours are replayed on the real Client with every call form; wake-ups are folded into the pass that caused them and compared with the model, error kinds per call form are checked, and nobody may stay blocked after Close.',
+   note=CLI_NOTE),
  'C19': dict(level=MC, ref='6 C19', technique='TLC model checking of RpcConn (CallWithContext) + trace validation of TLC-driven executions',
    text='TLC checks all orders of cancellation versus response (CtxReturnDone / CtxCancel), that an abandoned call stays harmless when its late response is dispatched; replays cancel contexts at TLC-chosen points with sibling calls in flight and validate each trace; the API observation requires ctx error exactly once.',
    note=CONN_NOTE),
